@@ -100,7 +100,7 @@ CLAIMED = {
         technique="Coq proof over a concrete list model of all of par_sort.rs + differential correspondence incl. adversarial inputs",
     ),
     "C06": dict(
-        text="Coq theorem over the protocol model (Model/Nucleo.v, Proofs/SnapshotFacts.v, 2300 lines, an inductive invariant through every phase of Worker::run, tick_inner and the injectors): in EVERY state reachable by a well-formed history with truthful append flags - any interleaving, any timeout / cancellation, runs stopped anywhere, whatever the parallel scan happened to see - the snapshot's matches are duplicate-free, never a placeholder, initialised items of the snapshot's stream carrying exactly the score of the snapshot's pattern; a set of exactly item_count() initialised processed items contains all matches and every processed item the pattern matches is reported; the order is score descending, column length ascending, index ascending, or index order for the empty pattern (C06_snapshot). Hypothesis: no stream exceeds u32::MAX reservations (guaranteed by boxcar's capacity check, C11); without it the statement is refuted for the unbounded model (C06_unbounded_refuted). Tie: model-guided scheduled histories (16 styles: writers parked mid-push, restart-heavy incl. back-to-back restarts, zero-timeout ticks, cancel-heavy, retype, stale run at restart, bulk extends with ties, cancelled run then empty pattern, scan cancelled by an append edit, two columns typed between two ticks, run finishing right after spawn, tick stepped into the held lock, cancelled Rescore then append) replayed on the real Nucleo; every observation compared with the extracted model and checked by an independent oracle (scores from the real Pattern::score).",
+        text="Coq theorem over the protocol model (Model/Nucleo.v, Proofs/SnapshotFacts.v, 2300 lines, an inductive invariant through every phase of Worker::run, tick_inner and the injectors): in EVERY state reachable by a well-formed history with truthful append flags - any interleaving, any timeout / cancellation, runs stopped anywhere, whatever the parallel scan happened to see - the snapshot's matches are duplicate-free, never a placeholder, initialised items of the snapshot's stream carrying exactly the score of the snapshot's pattern; a set of exactly item_count() initialised processed items contains all matches and every processed item the pattern matches is reported; the order is score descending, column length ascending, index ascending, or index order for the empty pattern (C06_snapshot). Hypothesis: no stream exceeds u32::MAX reservations (guaranteed by boxcar's capacity check, C11); without it the statement is refuted for the unbounded model (C06_unbounded_refuted). Tie: model-guided scheduled histories (17 styles: writers parked mid-push, restart-heavy incl. back-to-back restarts, zero-timeout ticks, cancel-heavy, retype, stale run at restart, bulk extends with ties, cancelled run then empty pattern, scan cancelled by an append edit, two columns typed between two ticks, run finishing right after spawn, tick stepped into the held lock, cancelled Rescore then append) replayed on the real Nucleo; every observation compared with the extracted model and checked by an independent oracle (scores from the real Pattern::score).",
         design_ref="DESIGN.md section 6, C06",
         note="Trusted: Coq kernel, extraction, scheduler harness; interleavings at yield-point granularity with the scan's view over-approximated by a parameter; matcher scores are a table computed by the real Pattern::score (matcher correctness is C01-C05, pattern scoring C15); par_sort's contract is C18. Axioms: none.",
         technique="Coq inductive invariant over the protocol LTS + scheduled-history correspondence",
@@ -112,19 +112,19 @@ CLAIMED = {
         technique="Coq inductive invariant over the protocol LTS + theorem over the parser model + scheduled-history and typed-pair correspondence",
     ),
     "C12": dict(
-        text="Coq theorems over the protocol model (Model/Nucleo.v): restart(true) empties and re-targets the snapshot at once, restart(false) leaves it untouched, the new stream id is fresh (C12_restart); nothing but a tick or restart(true) ever changes the snapshot - in particular no injector activity on any stream (C12_snapshot_stable); a tick only ever installs a snapshot of the current stream (C12_pickup_current); every index in the snapshot is an initialised item of the snapshot's own stream, so the streams are never mixed and the snapshot stays safe to read (C12_no_mix), for every history and interleaving. Tie: model-guided random walks over the enabled events of the extracted model (16 styles incl. writers parked between reservation and publication, restart-heavy with back-to-back restarts, zero-timeout ticks racing the end of the run, ticks stepped into the held worker lock, bulk extends), replayed on the real Nucleo (two matcher columns, push and extend) by the scheduler; every observation (tick status, snapshot pattern/count/matches/item data, active_injectors, notify count, unchecked reads of uninitialised entries) compared with the model and checked by the property oracle.",
+        text="Coq theorems over the protocol model (Model/Nucleo.v): restart(true) empties and re-targets the snapshot at once, restart(false) leaves it untouched, the new stream id is fresh (C12_restart); nothing but a tick or restart(true) ever changes the snapshot - in particular no injector activity on any stream (C12_snapshot_stable); a tick only ever installs a snapshot of the current stream (C12_pickup_current); every index in the snapshot is an initialised item of the snapshot's own stream, so the streams are never mixed and the snapshot stays safe to read (C12_no_mix), for every history and interleaving. Tie: model-guided random walks over the enabled events of the extracted model (17 styles incl. writers parked between reservation and publication, restart-heavy with back-to-back restarts, zero-timeout ticks racing the end of the run, ticks stepped into the held worker lock, bulk extends), replayed on the real Nucleo (two matcher columns, push and extend) by the scheduler; every observation (tick status, snapshot pattern/count/matches/item data, active_injectors, notify count, unchecked reads of uninitialised entries) compared with the model and checked by the property oracle.",
         design_ref="DESIGN.md section 6, C12",
         note="Trusted: Coq kernel, extraction, scheduler harness (UI thread, one pool thread and injector threads parked at the cfg(nucleo_verif) yield points); interleavings at yield-point granularity with the scan's view of the item stream over-approximated by a parameter; scores/lengths are a table computed by the real Pattern::score; rayon spawn, parking_lot mutex and Arc semantics. Axioms: none.",
         technique="Coq inductive invariants over the protocol LTS + scheduled-history correspondence",
     ),
     "C19": dict(
-        text="Coq theorems over the protocol model with ghost fields recording the snapshot and the number of published items of the current stream when the tick began: changed = false implies the snapshot is identical to the one before the call (C19_unchanged); running = false implies every item of the current stream whose push had completed before the call is counted, the snapshot's pattern is the matcher's current pattern and its stream is the current one (C19_idle), for every history and interleaving. Tie: model-guided random walks over the enabled events of the extracted model (16 styles incl. writers parked between reservation and publication, restart-heavy with back-to-back restarts, zero-timeout ticks racing the end of the run, ticks stepped into the held worker lock, bulk extends), replayed on the real Nucleo (two matcher columns, push and extend) by the scheduler; every observation (tick status, snapshot pattern/count/matches/item data, active_injectors, notify count, unchecked reads of uninitialised entries) compared with the model and checked by the property oracle.",
+        text="Coq theorems over the protocol model with ghost fields recording the snapshot and the number of published items of the current stream when the tick began: changed = false implies the snapshot is identical to the one before the call (C19_unchanged); running = false implies every item of the current stream whose push had completed before the call is counted, the snapshot's pattern is the matcher's current pattern and its stream is the current one (C19_idle), for every history and interleaving. Tie: model-guided random walks over the enabled events of the extracted model (17 styles incl. writers parked between reservation and publication, restart-heavy with back-to-back restarts, zero-timeout ticks racing the end of the run, ticks stepped into the held worker lock, bulk extends), replayed on the real Nucleo (two matcher columns, push and extend) by the scheduler; every observation (tick status, snapshot pattern/count/matches/item data, active_injectors, notify count, unchecked reads of uninitialised entries) compared with the model and checked by the property oracle.",
         design_ref="DESIGN.md section 6, C19",
         note="Trusted: Coq kernel, extraction, scheduler harness (UI thread, one pool thread and injector threads parked at the cfg(nucleo_verif) yield points); interleavings at yield-point granularity with the scan's view of the item stream over-approximated by a parameter; scores/lengths are a table computed by the real Pattern::score; rayon spawn, parking_lot mutex and Arc semantics. Axioms: none.",
         technique="Coq inductive invariants over the protocol LTS + scheduled-history correspondence",
     ),
     "C20": dict(
-        text="Coq theorem over the protocol model: whenever the UI thread is between API calls, active_injectors (strong count of the current stream minus the matcher's own references) equals the number of live injector handles of the current stream, and the usize subtraction never underflows (C20_count), for every history of injector/clone/drop/restart/edit/tick with the background run at any stage. Tie: model-guided random walks over the enabled events of the extracted model (16 styles incl. writers parked between reservation and publication, restart-heavy with back-to-back restarts, zero-timeout ticks racing the end of the run, ticks stepped into the held worker lock, bulk extends), replayed on the real Nucleo (two matcher columns, push and extend) by the scheduler; every observation (tick status, snapshot pattern/count/matches/item data, active_injectors, notify count, unchecked reads of uninitialised entries) compared with the model and checked by the property oracle.",
+        text="Coq theorem over the protocol model: whenever the UI thread is between API calls, active_injectors (strong count of the current stream minus the matcher's own references) equals the number of live injector handles of the current stream, and the usize subtraction never underflows (C20_count), for every history of injector/clone/drop/restart/edit/tick with the background run at any stage. Tie: model-guided random walks over the enabled events of the extracted model (17 styles incl. writers parked between reservation and publication, restart-heavy with back-to-back restarts, zero-timeout ticks racing the end of the run, ticks stepped into the held worker lock, bulk extends), replayed on the real Nucleo (two matcher columns, push and extend) by the scheduler; every observation (tick status, snapshot pattern/count/matches/item data, active_injectors, notify count, unchecked reads of uninitialised entries) compared with the model and checked by the property oracle.",
         design_ref="DESIGN.md section 6, C20",
         note="Trusted: Coq kernel, extraction, scheduler harness (UI thread, one pool thread and injector threads parked at the cfg(nucleo_verif) yield points); interleavings at yield-point granularity with the scan's view of the item stream over-approximated by a parameter; scores/lengths are a table computed by the real Pattern::score; rayon spawn, parking_lot mutex and Arc semantics. Axioms: none.",
         technique="Coq bookkeeping invariant over the protocol LTS + scheduled-history correspondence",
